@@ -13,7 +13,7 @@ from sim.core import H, Violation
 ID = "C10"
 LEVEL = "exploration"
 BATCH = 6
-QUICK_WORLDS = 224
+QUICK_WORLDS = 288
 THOROUGH_BUDGET_S = 900
 RUN_TIMEOUT = 120
 CLASSES = [c for c in mr.ALL_CLASSES if c != "NumPathsOptimization"]
